@@ -3,7 +3,7 @@
    abstract events of both sides (harness/c13.go) and the 11 table sizes read on each side. *)
 From Coq Require Import ZArith NArith List Bool.
 From GoCoap Require Import Base.Cases Base.Bytes Conn.MutexMap Conn.Spec.
-From GoCoap Require Conn.Sweep Conn.MidTick.
+From GoCoap Require Conn.Sweep Conn.MidTick Conn.KeepAlive Monitor.Model.
 From GoCoap Require Export Conn.Model.
 Import ListNotations.
 Open Scope Z_scope.
@@ -28,7 +28,17 @@ Inductive mphase :=
 | MTick (now : Z)
 | MRace (now : Z) (i : nat) (mid : list MT.envop)
 | MObs (lft : list Z).
+(* KaTcp: one real tcp/client.Conn with the keep-alive monitor of options.WithKeepAlive's wiring
+   (inactivity.NewKeepAlive + NewWithOnActive, sendPing = Conn.AsyncPing) over a pipe; the peer is
+   the script.  Per event: [e] for the model (ticks at 3600*k, messages at 0, period 1), what was
+   observed -- [eff]: 0 nothing, 1 a Ping frame was written, 2 the connection was declared inactive,
+   3 the pong answered the outstanding ping, 4 another message was processed, 5 the ping could not be
+   written -- and the length of tokenHandlerContainer [ntok] and whether onInactive has run [cl] *)
+Module KA := GoCoap.Conn.KeepAlive.
+Module KM := GoCoap.Monitor.Model.
+Inductive kobs := KO (e : KM.ev) (eff ntok : Z) (cl : bool).
 Inductive case :=
+| KaTcp (maxr bad : Z) (ksteps : list kobs)
 | Hist (le hang nbad : Z) (steps : list stepobs)
 | Sweep (now : Z) (ents : list (Z * option Z)) (left fired : list Z) (bad : Z)
 | Locks (n : nat) (bad : Z) (steps : list lstep)
@@ -142,8 +152,37 @@ Definition xevs_of (p : mphase) : list xev :=
   | MObs lft => [XObs lft]
   end.
 
+(* ---- KaTcp ---- *)
+Definition ka_cfg (mr : Z) : KM.cfg := {| KM.period := 1; KM.maxr := mr; KM.ka := true |}.
+Definition has_obs (f : KM.obs -> bool) (o : list KM.obs) : bool := existsb f o.
+Definition ka_eff (x : KA.kst) (e : KM.ev) (o : list KM.obs) : Z :=
+  if KM.closed (fst x) then 0 else
+  match e with
+  | KM.Pong g _ => if KA.kmem g (snd x) then 3 else 4
+  | KM.Recv _ => 4
+  | _ =>
+      if has_obs (fun y => match y with KM.Ping _ => true | _ => false end) o then 1
+      else if has_obs (fun y => match y with KM.Close => true | _ => false end) o then 2
+      else if has_obs (fun y => match y with KM.PingFail _ => true | _ => false end) o then 5
+      else 0
+  end.
+Fixpoint agrees_ka (c : KM.cfg) (x : KA.kst) (l : list kobs) : bool :=
+  match l with
+  | [] => true
+  | KO e eff n cl :: r =>
+      let '(x1, o) := KA.kstep c x e in
+      (ka_eff x e o =? eff) && (blen (snd x1) =? n) && Bool.eqb (KM.closed (fst x1)) cl && agrees_ka c x1 r
+  end.
+Definition kev_of (k : kobs) : list kev :=
+  match k with
+  | KO _ eff n _ =>
+      (if eff =? 1 then [KPing] else if eff =? 2 then [KClosed] else if eff =? 3 then [KPong]
+       else if eff =? 4 then [KOther] else if eff =? 5 then [KPingFail] else []) ++ [KRead n]
+  end.
+
 Definition agrees (c : case) : bool :=
   match c with
+  | KaTcp mr bad ks => (bad =? 0) && agrees_ka (ka_cfg mr) (KA.kinit 0) ks
   | Hist le hang nbad steps => (hang =? 0) && (nbad =? 0) && agrees_steps (init 0 le, init 0 0) steps
   | Sweep now ents lft fired bad =>
       (bad =? 0) && zlist_eqb (fst (sweep_model now ents)) lft && zlist_eqb (snd (sweep_model now ents)) fired
@@ -175,6 +214,7 @@ Definition has_closing (l : list stepobs) : bool := existsb (fun '(St k _ _ _ _)
 
 Definition pclass (c : case) : N :=
   match c with
+  | KaTcp _ bad ks => match ka_class (flat_map kev_of ks) with 0%N => if negb (bad =? 0) then 9%N else 0%N | c => c end
   | Hist _ hang nbad steps =>
       (* what the tables read before a hang / an unexpected result show is reported as such *)
       match first_class steps with
